@@ -281,6 +281,8 @@ Definition dbgrid_deserialize (E : env) (m : mon) : res (option dbgrid) :=
                 | None => Ret (false, []) m2
                 end);
   let '(ret, rows) := hd in
+  (* candidate fix C09_4: a failed header is reported before the grid is built *)
+  if fix_grid (e_cfg E) && negb ret then Ret None m3 else
   (* gridDefine: Grid::_allocate + Rotation::resetFromSpaceDimension (two ndim x ndim matrices) *)
   do _, m4 <- alloc E 23 (ndim * ndim) 8 m3;
   do _, m5 <- alloc E 23 (ndim * ndim) 8 m4;
